@@ -29,13 +29,11 @@ class SoilQNH(Substrate):
     def adjust(self, rh, rv, mu1):
         # in place modification of rh and rv for the rough soil QNH reflectivity model
 
-        if np.isnan(self.Nv):
-            Nv = N
-        if np.isnan(self.Nh):
-            Nh = N
+        Nv = self.N if np.isnan(self.Nv) else self.Nv
+        Nh = self.N if np.isnan(self.Nh) else self.Nh
 
-        coef_h = np.exp(-self.H * (mu1**self.Nh))
-        coef_v = np.exp(-self.H * (mu1**self.Nv))
+        coef_h = np.exp(-self.H * (mu1**Nh))
+        coef_v = np.exp(-self.H * (mu1**Nv))
 
         trv = ((1-self.Q) * rv + self.Q * rh)*coef_v  # trv is temporary because rv (which is a view) is needed in the next line.
         rh[:] = ((1-self.Q) * rh + self.Q * rv)*coef_h
